@@ -112,7 +112,8 @@ def r2(ctx):
     fu = list(d.calls(r'String::from_utf8$'))
     ctx.require(len(fu) == 1 and not list(d.calls(r'from_utf8_lossy$')), d, 'utf8', 'the bytes are converted with String::from_utf8 (error, not lossy)', None)
     it = body_for(ctx, TOK + 'id_to_token', BYTE)
-    ok = any(match(core(g.atom()[0]), ('bin', 'Lt', ('arg', 2, ANY), Const(256))) for g in edge_guards(it))
+    from rules.common import byte_boundary_tests
+    ok = bool(byte_boundary_tests(it, ('arg', 2, ANY)))
     ctx.require(ok, it, 'id-to-token-boundary', 'id_to_token uses the same strict 256 boundary', None)
 
 
